@@ -103,6 +103,52 @@ macro_rules! to_hash_map {
 to_hash_map!(to_hash_map, Rule, Expr);
 to_hash_map!(to_optimized_hash_map, OptimizedRule, OptimizedExpr);
 
+/// Verification hooks: the individual passes, exposed for per-pass checking (feature `verif-hooks`).
+#[cfg(feature = "verif-hooks")]
+pub mod verif {
+    use super::*;
+
+    /// The rotate pass.
+    pub fn rotate(rule: Rule) -> Rule {
+        super::rotator::rotate(rule)
+    }
+
+    /// The unroll pass.
+    pub fn unroll(rule: Rule) -> Rule {
+        super::unroller::unroll(rule)
+    }
+
+    /// The concatenate pass.
+    pub fn concatenate(rule: Rule) -> Rule {
+        super::concatenator::concatenate(rule)
+    }
+
+    /// The factor pass.
+    pub fn factor(rule: Rule) -> Rule {
+        super::factorizer::factor(rule)
+    }
+
+    /// The list pass.
+    pub fn list(rule: Rule) -> Rule {
+        super::lister::list(rule)
+    }
+
+    /// The skip pass (needs all rules for inlining).
+    pub fn skip(rule: Rule, rules: &[Rule]) -> Rule {
+        super::skipper::skip(rule, &to_hash_map(rules))
+    }
+
+    /// Plain conversion of an (already unrolled) rule.
+    pub fn to_optimized(rule: Rule) -> OptimizedRule {
+        rule_to_optimized_rule(rule)
+    }
+
+    /// The restore-on-error pass.
+    pub fn restore_on_err(rule: OptimizedRule, rules: &[OptimizedRule]) -> OptimizedRule {
+        super::restorer::restore_on_err(rule, &to_optimized_hash_map(rules))
+    }
+}
+
 /// The optimized version of the pest AST's `Rule`.
 #[derive(Clone, Debug, Eq, PartialEq)]
 pub struct OptimizedRule {
